@@ -14,6 +14,11 @@ theorem sites_ok : cfg.sites.ok = true := by decide
 /-- the three reference-table indices (`st->lookup[len]`, `st->lookup_envs[index]`, `st->lookup_defs[index]`) are tested first -/
 theorem refs_checked : cfg.refsChecked = true := by decide
 
+/-- every call path from one `MARSH_STACKCHECK` to the next (through `unmarshal_one_env`, `unmarshal_one_fiber`,
+    `unmarshal_one_abstract`, the `janet_unmarshal_janet` hook) adds at least 1 to the depth counter: `decide` over the `flags + k`
+    arguments of the 28 recursive call sites extracted from the current marsh.c -/
+theorem depths_ok : cfg.inc.ok = true := by decide
+
 /-- for EVERY byte array and fuel: no read outside the input; success consumes ≥ 1 byte and ends inside the input -/
 theorem unmarshal_total_inbounds (b : Array Nat) (fuel : Nat) :
     match unmarshal cfg b fuel with
@@ -23,7 +28,7 @@ theorem unmarshal_total_inbounds (b : Array Nat) (fuel : Nat) :
 
 /-- `fuelBound cfg` (= 2054) levels of recursion suffice for every input: the model never answers `fuel` -/
 theorem unmarshal_terminates (b : Array Nat) (fuel : Nat) (hf : fuelBound cfg ≤ fuel) :
-    ∀ a, unmarshal cfg b fuel ≠ .fuel ∧ unmarshal cfg b fuel ≠ .oob a := unmarshal_terminates_generic cfg sites_ok refs_checked b fuel hf
+    ∀ a, unmarshal cfg b fuel ≠ .fuel ∧ unmarshal cfg b fuel ≠ .oob a := unmarshal_terminates_generic cfg sites_ok refs_checked depths_ok b fuel hf
 
 /-- the count check of `peg_unmarshal` is present in the current peg.c (hypothesis of `PegSize.peg_alloc_covers_writes`:
     both counts ≤ INT32_MAX before the size computation) -/
